@@ -61,13 +61,18 @@ func (li *Language) Match(input MatchInput) (bool, error) {
 	return result == language.TRUE, nil
 }
 
-// CheckSyntax parses a condition, filter or key condition expression without evaluating it
+// CheckSyntax parses a condition, filter or key condition expression and applies the checks
+// that do not depend on an item, without evaluating it
 func (li *Language) CheckSyntax(expression string) error {
 	p := language.NewParser(language.NewLexer(expression))
-	p.ParseConditionalExpression()
+	conditional := p.ParseConditionalExpression()
 
 	if len(p.Errors()) != 0 {
 		return fmt.Errorf("%w: %s", ErrSyntaxError, strings.Join(p.Errors(), "\n"))
+	}
+
+	if result := language.ValidateCondition(conditional); result != nil && result.Type() == language.ObjectTypeError {
+		return fmt.Errorf("%w: %s", ErrSyntaxError, result.Inspect())
 	}
 
 	return nil
